@@ -43,7 +43,9 @@ MDNAMES = ['dst', 'd st', 'd%st', 'dé', 'we:ird', 'x:2,y']
 def run_case(ck, stats, rng, scen):
     """scen: dict(name, srcsub, action, mdname, prepop)"""
     sb = mdrun.Sandbox()
-    srcname = rng.choice(['src', 's:rc']) if scen.get('colon_src') else 'src'
+    # (a source maildir whose name contains ':' or a backslash followed by a digit: its path is used as it is - the path of a flag /
+    # flags action is the message's own maildir, never a template)
+    srcname = rng.choice(['src', 's:rc', 'box\\1x', 'b\\0.1']) if scen.get('colon_src') else 'src'
     src = sb.maildir(srcname)
     dstroot = sb.maildir(scen['mdname'])
     name, srcsub = scen['name'], scen['srcsub']
@@ -225,18 +227,29 @@ def run(ck):
         for sub in ('new', 'cur'):
             scens.append(dict(name=rng.choice(NAMES[:6]), srcsub=sub, action=act, mdname='dst', prepop=rng.choice([0, 2]), extra='T' if 'flags' in act else '',
                               colon_src=False, xdev=True))
+    # one run per action kind from a maildir whose name looks like a back-reference
+    for act in acts:
+        scens.append(dict(name=rng.choice(NAMES[:6]), srcsub=rng.choice(['new', 'cur']), action=act, mdname='dst', prepop=0, extra='T' if 'flags' in act else '',
+                          colon_src=True, xdev=False))
     for sc in scens:
         if sc['action'] in ('flags', 'flags_move') and sc['extra'] == '':
             sc['extra'] = 'T'
         run_case(ck, stats, rng, sc)
         if len(ck.violations) > 6:
             break
+    # generated names at the NAME_MAX boundary (host name length pinned): a name that does not fit is refused, never cut (the window of C18)
+    import c18
+    fixed = len('1700000000.4242_6.') + len(':2,')
+    st18 = dict(binary=0)
+    for hl in range(c18.NAME_MAX - fixed - 2, c18.NAME_MAX - fixed + 3):
+        c18.scenario_hostname(ck, st18, hl)
+    stats['evals'] += st18['binary']
     ck.coverage.update({
         'evaluations': stats['evals'],
         'distinct_nontrivial': len(stats['nontrivial']),
         'rule': 'one message per run; file name from 17 suffix shapes (absent, empty, sorted/unsorted/duplicate letters, all 52 letters, invalid: wrong version, '
                 'missing comma, digit, dash, second suffix), both subdirectories, action from {move, flag new, flag !new, flags, move+flag, flag+move, flags+move}, '
-                'destination maildir names with space, %, UTF-8 and ":" , 0-5 pre-existing candidate names and five runs with 128-300 of them in a row; six runs of three messages under an invalid flags string and two in which the new/ of the destination is renamed away after the first delivery; a quarter of the runs and one per action and subdirectory with the rename failing with EXDEV (copy path); clock/pid/host/random pinned; '
+                'destination maildir names with space, %, UTF-8 and ":", source maildir names with ":" and with a backslash followed by a digit, 0-5 pre-existing candidate names and five runs with 128-300 of them in a row; six runs of three messages under an invalid flags string and two in which the new/ of the destination is renamed away after the first delivery; a quarter of the runs and one per action and subdirectory with the rename failing with EXDEV (copy path); clock/pid/host/random pinned; five host-name lengths that put the generated name at NAME_MAX-2 .. NAME_MAX+2; '
                 'non-trivial = valid flags (the message must be renamed); distinct = distinct (name, subdir, action, prepopulation, letters)',
         'samples': scens[:4],
         'traces_validated_against_impl': stats['evals'],
